@@ -2,6 +2,7 @@ import Lean.Data.Json
 import GristModel
 import Driver.Treeview
 import Driver.Engine
+import Driver.Upsert
 import Driver.Zone
 import Driver.FetchQuery
 import Driver.Choices
@@ -40,6 +41,7 @@ def handleStateless (m : String) (j : Json) : Except String Json :=
   | "choices" => handleChoices j
   | "fetchquery" => handleFetchQuery j
   | "zone" => handleZone j
+  | "upsert" => handleUpsert j
   | _ => throw s!"unknown model {m}"
 
 structure AllState where
